@@ -134,19 +134,17 @@ def run(prog: Program, rep: Report, tier: str):
                 continue
             n_loops += 1
             body = cfg.nodes_inside(nd.owner.body)
-            decs = [(m, cfg.nodes[m].ast) for m in body if cfg.nodes[m].kind == "stmt" and isinstance(cfg.nodes[m].ast, ast.AugAssign)
-                    and isinstance(cfg.nodes[m].ast.target, ast.Name) and cfg.nodes[m].ast.target.id == v
-                    and isinstance(cfg.nodes[m].ast.op, ast.Sub)]
+            decs = [(m, e) for m, op, e in fa.updates(v, ops=(ast.Sub,)) if m in body]
             ok, why = None, f"no 'v -= ...' found for '{v}'"
-            for m, st in decs:
-                amt = fa.sym.term(st.value, m)
+            for m, dec_e in decs:
+                amt = fa.sym.term(dec_e, m)
                 c = term_to_poly(amt).const_value()
                 every = cfg.out_edge(n, True) == m or not cfg.reachable(cfg.out_edge(n, True), n, avoid={m})
                 if c is not None:
                     ok = c >= 1 and every
                     why = f"'{v}' decreases by {c} per round" if ok else f"'{v}' decreases by {c}"
                     continue
-                pool = _pool_of(fa, st.value, m)
+                pool = _pool_of(fa, dec_e, m)
                 if pool is None:
                     ok, why = None, f"decrement {show(amt)[:60]} of unrecognised shape"
                     continue
